@@ -67,6 +67,11 @@ func c14NewSet(name string, logN int, qbits, pbits []int) c14Set {
 }
 
 func c14NewSetRing(name string, logN int, qbits, pbits []int, rt ring.Type) c14Set {
+	return c14NewSetDist(name, logN, qbits, pbits, rt, nil, nil)
+}
+
+// c14NewSetDist: with declared secret / error distributions (nil = the library defaults Ternary{P:2/3}, σ = 3.2).
+func c14NewSetDist(name string, logN int, qbits, pbits []int, rt ring.Type, xs, xe ring.DistributionParameters) c14Set {
 	twoN := uint64(2) << uint(logN)
 	if rt == ring.ConjugateInvariant {
 		twoN <<= 1 // NthRoot = 4N
@@ -88,7 +93,7 @@ func c14NewSetRing(name string, logN int, qbits, pbits []int, rt ring.Type) c14S
 	for _, b := range pbits {
 		p = append(p, pick(b))
 	}
-	params, err := rlwe.NewParametersFromLiteral(rlwe.ParametersLiteral{LogN: logN, Q: q, P: p, NTTFlag: true, RingType: rt})
+	params, err := rlwe.NewParametersFromLiteral(rlwe.ParametersLiteral{LogN: logN, Q: q, P: p, NTTFlag: true, RingType: rt, Xs: xs, Xe: xe})
 	if err != nil {
 		panic(fmt.Errorf("c14 params %s: %w", name, err))
 	}
@@ -111,6 +116,11 @@ func c14Sets() []c14Set {
 			// three / four auxiliary primes, #P does not divide #Q: RNS digits of LevelP+1 primes, the last one shorter
 			c14NewSet("q4p3", 4, []int{30, 35, 40, 45}, []int{50, 51, 52}),
 			c14NewSet("q5p4", 4, []int{30, 32, 34, 36, 38}, []int{50, 51, 52, 53}),
+			// declared distributions other than the defaults: Gaussian / sparse / dense-ternary secrets, narrower and wider errors
+			c14NewSetDist("gaussXs", 4, []int{40, 30, 55}, []int{56}, ring.Standard, ring.DiscreteGaussian{Sigma: 3.2, Bound: 19.2}, nil),
+			c14NewSetDist("wideXsNarrowXe", 4, []int{45, 50}, []int{55, 56}, ring.Standard, ring.DiscreteGaussian{Sigma: 8, Bound: 48}, ring.DiscreteGaussian{Sigma: 1, Bound: 2}),
+			c14NewSetDist("ternPwideXe", 4, []int{36, 44}, nil, ring.Standard, ring.Ternary{P: 0.5}, ring.DiscreteGaussian{Sigma: 8, Bound: 48}),
+			c14NewSetDist("ternHnarrowXe", 4, []int{40, 50}, []int{51}, ring.Standard, ring.Ternary{H: 4}, ring.DiscreteGaussian{Sigma: 1, Bound: 2}),
 			c14NewSetRing("ciq3p1", 4, []int{40, 30, 55}, []int{56}, ring.ConjugateInvariant),
 			c14NewSetRing("ciq2", 4, []int{36, 50}, nil, ring.ConjugateInvariant),
 		}
@@ -496,6 +506,8 @@ func c14EvkConfigs(set c14Set) []c14Evk {
 // generator
 
 func genC14(c *Ctx) {
+	defer c14CPKNoiseProbes(c)
+	defer c14ConcurrentGalois(c)
 	ns := []int{1, 2, 3, 5}
 	if c.Thorough() {
 		ns = []int{1, 2, 3, 4, 5, 6, 7, 8}
@@ -540,6 +552,7 @@ func genC14(c *Ctx) {
 			c14Guard(c, "C14-harness-panic", "c14GALEl", func() { c14GALEl(c, set, 2, gcfg, g) })
 		}
 		c14Guard(c, "C14-harness-panic", "c14Mismatch", func() { c14Mismatch(c, set) })
+		c14Guard(c, "C14-harness-panic", "c14ScratchAll", func() { c14ScratchAll(c, set) })
 	}
 }
 
@@ -725,12 +738,14 @@ func c14CPK(c *Ctx, set c14Set, n int) {
 
 	protos := make([]multiparty.PublicKeyGenProtocol, n)
 	twins := make([]ring.Sampler, n)
+	isCopy := make([]bool, n)
 	for i := range protos {
 		mark := RandMark()
 		if i == 0 || c.rng.Intn(2) == 0 {
 			protos[i] = multiparty.NewPublicKeyGenProtocol(params)
 		} else {
-			protos[i] = protos[0].ShallowCopy()
+			isCopy[i] = true
+			protos[i] = protos[c.rng.Intn(i)].ShallowCopy() // a copy of the original or of an earlier copy
 		}
 		twins[i], _ = c14Twin(set, mark, params.Xe())
 	}
@@ -797,6 +812,7 @@ func c14CPK(c *Ctx, set c14Set, n int) {
 	c.Count("cpk_key")
 
 	c14ProbePK(c, set, n, keys, pk)
+	c14CPKNoise(c, set, n, keys, pk, shares, crp, isCopy)
 
 	pkRows := func() string {
 		return Mat(c14QPRows(params, pk.Value[0], true, true)) + "|" + Mat(c14QPRows(params, pk.Value[1], true, true))
@@ -870,7 +886,7 @@ func c14EVK(c *Ctx, set c14Set, n int, cfg c14Evk) {
 		if i == 0 || c.rng.Intn(2) == 0 {
 			protos[i] = multiparty.NewEvaluationKeyGenProtocol(params)
 		} else {
-			protos[i] = protos[0].ShallowCopy()
+			protos[i] = protos[c.rng.Intn(i)].ShallowCopy() // a copy of the original or of an earlier copy
 		}
 		twins[i], _ = c14Twin(set, mark, params.Xe())
 	}
@@ -1039,7 +1055,7 @@ func c14GALEl(c *Ctx, set c14Set, n int, cfg c14Evk, galEl uint64) {
 		if i == 0 || c.rng.Intn(2) == 0 {
 			protos[i] = multiparty.NewGaloisKeyGenProtocol(params)
 		} else {
-			protos[i] = protos[0].ShallowCopy()
+			protos[i] = protos[c.rng.Intn(i)].ShallowCopy() // a copy of the original or of an earlier copy
 		}
 		twins[i], _ = c14Twin(set, mark, params.Xe())
 	}
@@ -1223,7 +1239,7 @@ func c14RKG(c *Ctx, set c14Set, n int, cfg c14Evk) {
 		if i == 0 || c.rng.Intn(2) == 0 {
 			protos[i] = multiparty.NewRelinearizationKeyGenProtocol(params)
 		} else {
-			protos[i] = protos[0].ShallowCopy()
+			protos[i] = protos[c.rng.Intn(i)].ShallowCopy() // a copy of the original or of an earlier copy
 		}
 		var prng *sampling.KeyedPRNG
 		gauss[i], prng = c14Twin(set, mark, params.Xe())
